@@ -478,6 +478,66 @@ func c10(c *core.Ctx) {
 		c.EndRule()
 	}
 
+	// ---------------------------------------------------------------- R7
+	if c.Rule("R7", "the transport stream attached per call names the call: its Name is the slash-normalised method string (what grpc.Method(ctx) reports inside the handler), not the caller's string as given", 2) {
+		n := 0
+		for _, fn := range p.LibFuncs("inprocgrpc") {
+			core.Instrs(fn, func(in ssa.Instruction) {
+				st, ok := in.(*ssa.Store)
+				if !ok || core.TypeStr(st.Val.Type()) != "string" {
+					return
+				}
+				base, f, isF := core.FieldOf(st.Addr)
+				if !isF || f != "Name" || !strings.HasSuffix(core.NamedOf(base.Type()), "ServerTransportStream") {
+					return
+				}
+				n++
+				c.Check(slashNormalised(p, st.Val), core.FuncName(fn)+":transport-stream-name", st.Pos(), "the Name is the method string with its leading slash ensured", "the transport stream's Name is the caller's method string as given: for a call made with \"svc/method\" grpc.Method(ctx) inside the handler reports a name without the leading slash, unlike a call that crossed a network")
+			})
+		}
+		if n < 2 {
+			c.Fail("inprocgrpc:transport-stream-names", token.NoPos, "ANCHOR-MISSING: expected the unary and the streaming path to name their transport stream, found %d", n)
+		}
+		c.EndRule()
+	}
+
+	// ---------------------------------------------------------------- R8
+	if c.Rule("R8", "the handler's context ends with the call (as it does across a network): on its derivation chain lies a cancelable context whose CancelFunc is deferred by the function that runs the handler (or by the entry point that waits for it)", 2) {
+		n := 0
+		for _, fn := range p.LibFuncs("inprocgrpc") {
+			for i, hs := range handlerInvocations(fn) {
+				kind, _ := isHandlerInvocation(&hs.Call)
+				var ctxVals []ssa.Value
+				for _, a := range hs.Call.Args {
+					if core.TypeStr(a.Type()) == "context.Context" {
+						ctxVals = append(ctxVals, a)
+					}
+					if core.TypeStr(a.Type()) == grpcPkg+".ServerStream" {
+						if cv := streamCtxValue(p, fn, a); cv != nil {
+							ctxVals = append(ctxVals, cv)
+						}
+					}
+				}
+				for _, cv := range ctxVals {
+					n++
+					key := fmt.Sprintf("%s:%s#%d:ctx-ends-with-call", core.FuncName(fn), kind, i)
+					layers := cancelLayers(p, cv, 0, map[ssa.Value]bool{})
+					ok := false
+					for _, l := range layers {
+						if cancelDeferredAround(l, fn) {
+							ok = true
+						}
+					}
+					c.Check(ok, key, hs.Pos(), fmt.Sprintf("%d cancelable layer(s) on the chain, one of them cancelled by a defer of the function running the handler", len(layers)), "no cancelable context on the derivation chain of the handler's context is cancelled when the call ends (the deferred cancel belongs to a context that is not an ancestor of the handler's): a handler-side goroutine waiting on ctx.Done() outlives the call unless the caller's own context ends")
+				}
+			}
+		}
+		if n < 3 {
+			c.Fail("inprocgrpc:handler-contexts-end", token.NoPos, "ANCHOR-MISSING: expected >= 3 handler context hand-overs, found %d", n)
+		}
+		c.EndRule()
+	}
+
 	// ---------------------------------------------------------------- R5, R6 (shared)
 	// "exposes the caller's outgoing metadata as incoming metadata": the per-RPC credentials step joins, never
 	// replaces, the caller's own entries (C13/R2); "the caller's deadline and cancellation": the handler's context
@@ -562,4 +622,123 @@ func launchedAsync(p *core.Prog, fn *ssa.Function, seen map[*ssa.Function]bool, 
 		}
 	}
 	return "", ""
+}
+
+// cancelLayers: the context.WithCancel / WithTimeout / WithDeadline calls on
+// the derivation chain(s) of the context value v (through context-deriving
+// calls, module helpers, capture cells and helper parameters).
+func cancelLayers(p *core.Prog, v ssa.Value, depth int, seen map[ssa.Value]bool) []*ssa.Call {
+	var out []*ssa.Call
+	if v == nil || depth > 12 || seen[v] {
+		return nil
+	}
+	seen[v] = true
+	for _, o := range originsThroughCallers(p, v, 0) {
+		o = core.ResolveFree(o)
+		if mi, ok := o.(*ssa.MakeInterface); ok {
+			if inner := embeddedCtx(mi.X); inner != nil {
+				out = append(out, cancelLayers(p, inner, depth+1, seen)...)
+				continue
+			}
+		}
+		// a struct wrapper (the value-blocking context) built as a composite literal: continue with what is stored
+		// into its embedded context field
+		if al, ok := o.(*ssa.Alloc); ok {
+			for _, r := range core.Refs(al) {
+				fa, isFA := r.(*ssa.FieldAddr)
+				if !isFA || core.TypeStr(fa.Type().Underlying().(*types.Pointer).Elem()) != "context.Context" {
+					continue
+				}
+				for _, rr := range core.Refs(fa) {
+					if st, isS := rr.(*ssa.Store); isS {
+						out = append(out, cancelLayers(p, st.Val, depth+1, seen)...)
+					}
+				}
+			}
+			continue
+		}
+		call, _, isCall := core.CallResult(o)
+		if !isCall {
+			continue
+		}
+		ci := core.InfoOf(&call.Call)
+		if ci.Is("context.WithCancel") || ci.Is("context.WithTimeout") || ci.Is("context.WithDeadline") {
+			out = append(out, call)
+		}
+		// a context-deriving call: continue with its context argument(s)
+		for _, a := range call.Call.Args {
+			if core.TypeStr(a.Type()) == "context.Context" {
+				out = append(out, cancelLayers(p, a, depth+1, seen)...)
+			}
+		}
+	}
+	return out
+}
+
+// cancelDeferredAround: the CancelFunc of the cancelable layer l is deferred in
+// fn or in one of the functions fn is nested in (a goroutine literal of the
+// entry point, or the entry point itself).
+func cancelDeferredAround(l *ssa.Call, fn *ssa.Function) bool {
+	var cancelV ssa.Value
+	for _, r := range core.Refs(l) {
+		if ex, ok := r.(*ssa.Extract); ok && ex.Index == 1 {
+			cancelV = ex
+		}
+	}
+	if cancelV == nil {
+		return false
+	}
+	isCancel := func(v ssa.Value) bool {
+		for _, o := range core.Origins(v) {
+			if core.ResolveFree(o) == cancelV || o == cancelV {
+				return true
+			}
+			// loaded from a capture cell holding the cancel func
+			if u, isU := o.(*ssa.UnOp); isU {
+				if al, isA := core.ResolveFree(u.X).(*ssa.Alloc); isA {
+					for _, st := range core.StoresTo(al) {
+						if st.Val == cancelV {
+							return true
+						}
+					}
+				}
+			}
+		}
+		return false
+	}
+	next := func(f *ssa.Function) *ssa.Function {
+		if f.Parent() != nil {
+			return f.Parent()
+		}
+		// a single-use function started from the entry point (what a goroutine literal becomes after a
+		// "closure to method" clean-up): continue in the function that holds its only call
+		if site := core.InlineSite[f]; site != nil {
+			return site.Parent()
+		}
+		return nil
+	}
+	for f := fn; f != nil; f = next(f) {
+		found := false
+		core.Instrs(f, func(in ssa.Instruction) {
+			d, ok := in.(*ssa.Defer)
+			if !ok {
+				return
+			}
+			if isCancel(d.Call.Value) {
+				found = true
+			}
+			// defer func() { …; cancel() }()
+			if mc, isMC := d.Call.Value.(*ssa.MakeClosure); isMC {
+				core.Instrs(mc.Fn.(*ssa.Function), func(x ssa.Instruction) {
+					if cc := core.CallOf(x); cc != nil && isCancel(cc.Value) {
+						found = true
+					}
+				})
+			}
+		})
+		if found {
+			return true
+		}
+	}
+	return false
 }
